@@ -249,6 +249,13 @@ class DNSCache:
         for name, type_, class_ in unique_types:
             for record in self.async_all_by_details(name, type_, class_):
                 created_double = record.created
-                if (now - created_double > _ONE_SECOND) and record not in answers_rrset:
+                if (
+                    (now - created_double > _ONE_SECOND)
+                    and record not in answers_rrset
+                    # Only ever shorten a lifetime: a record that runs out
+                    # within the second anyway (or already has, and waits
+                    # for the purge) must not get a new lease
+                    and not record.is_expired(now + _ONE_SECOND)
+                ):
                     # Expire in 1s
                     record.set_created_ttl(now, 1)
